@@ -466,12 +466,13 @@ def run_check(pid, tier, seed, module, replay=None):
         return 1 if ctx.failures else 0
     # 1. translator (a provider whose anchor is missing only concerns the properties that import its file)
     changed, tabs = gen_tables.generate()
-    problems = gen_tables.validate_live(tabs)
+    gen_tables.validate_live(tabs)
     used = set()
     for mod in ("PolyplyVerif.Properties." + pid, "PolyplyVerif.Driver." + pid):
         for dep in transitive_local_imports(mod):
             if dep.startswith("PolyplyVerif.Generated."):
                 used.add(dep.split(".")[-1] + ".lean")
+    problems = ["%s: %s" % (f, "; ".join(v)) for f, v in gen_tables.LIVE_PROBLEMS.items() if f in used]
     errors = ["%s: %s" % (f, e) for f, e in gen_tables.ERRORS.items() if f in used]
     other = ["%s: %s" % (f, e) for f, e in gen_tables.ERRORS.items() if f not in used]
     detail = "; ".join(errors + problems) if errors or problems else \
